@@ -2,6 +2,8 @@ SPECIFICATION Spec
 CONSTANTS
   MaxLines = 6
   MaxLive = 3
+  UseImpl = FALSE
+  EqualKinds = FALSE
 INVARIANT NeverStuck
 INVARIANT EndsClosed
 INVARIANT SameGoverning
